@@ -35,6 +35,9 @@ CHECKS['C05'] = ('property-based testing: independent storage-format decoder, el
 CHECKS['C06'] = ('property-based testing with a differential oracle: interpreter run of the quantized model vs a check-built reference program, end to end and operator by operator',
   'Generated models x weight-only / fp16 / dynamic-range recipes x random inputs: (i) for graphs without dynamic-range ops the outputs must equal, to float32 rounding, those of a reference program the check builds from the SOURCE spec with every rewritten constant replaced by its independently decoded and dequantized value; (ii) every original operator is re-executed as a single-op float model on exactly the inputs it saw inside the quantized model: float ops must agree to rounding, dynamic-range ops within the analytic bound max|x|/254 * max_j sum_k|w_jk|; inserted DEQUANTIZE outputs must equal the decoded constants. Two open findings (accepted configs the runtime mis-executes) are matched structurally.',
   'LiteRT float kernels define the op semantics; the bound assumes symmetric per-batch 8-bit activation quantization in the hybrid kernels.', 'DESIGN.md 4 C06')
+CHECKS['C16'] = ('property-based testing with a differential oracle: the same case serialized by both paths (guarded threshold hook), raw flatbuffer parse, byte-level comparison, interpreter outputs',
+  'Every generated (model, recipe) case is quantized twice through the public API, once normally and once with the guarded hook forcing the external-buffer serializer; both results are raw-parsed (offset/size preserved): all fields must be equal except buffer data/offset/size, every external range must be 16-byte aligned, in bounds, pairwise disjoint, outside the flatbuffer proper (the prefix up to the first external byte parses to the same model) and byte-equal to the embedded data; both forms must load in the interpreter and give bit-identical outputs.',
+  'The real > 2 GB sizes are not exercised, only the code path; interpreter trusted.', 'DESIGN.md 4 C16')
 NOT_APPLICABLE = {}
 
 def main():
